@@ -19,7 +19,7 @@ PROPERTY = "C16"
 LEVEL = "model_checking"
 TRUSTED = ["z3 5.1 QF_UFBV", "fixedint model (validated each run)", "CPython renderers (placeholders compared as (renderer, value))"]
 ASSUMPTIONS = [
-    "programs and bounds of C02 (L<=2 quick, K = 2L+2); states inspected: every state (stride 1) for L<=2",
+    "programs and bounds of C02 (K = 2L+2); states inspected per path: the initial state, the state after the first step, every 3rd state (quick; thorough: every state for one-instruction programs, every 2nd for L=2) and the final state",
     "with a symbolic (total) data memory the data-memory table getter cannot enumerate keys; it is exercised in the 'small' harness (initially empty real dict memory, store/load addresses constrained to 8 bytes at the start of the data segment)",
     "initial register values are constrained to [0, 2^31) (the register table branches on the sign of each of the 32 registers; the formatter is C17's subject); computed values are unconstrained",
     "timer fields excluded from snapshots; get_performance_metrics_str is deterministic while the timer is not running (stepping)",
@@ -31,7 +31,7 @@ SKIP_WITH_SYMBOLIC_MEMORY = {"get_data_memory_entries"}
 
 
 def bounds(tier):
-    return {"programs": "all one-instruction programs, all light L=2 skeletons" + ("" if tier == "quick" else ", all L=2"), "cache_configs": ["none", "wb/lru 2 sets x 1 word x 2 ways + icache", "wt/plru 2 sets x 2 words x 2 ways + icache"], "toy_steps": 2}
+    return {"programs": "all one-instruction programs, a VERIF_SEED-rotated eighth of the light L=2 skeletons" if tier == "quick" else "all one-instruction programs, all L=2 skeletons (best effort under the wall budget)", "cache_configs": ["none", "wb/lru 2 sets x 1 word x 2 ways + icache", "wt/plru 2 sets x 2 words x 2 ways + icache"], "toy_steps": 2}
 
 
 def getters(sim):
@@ -71,18 +71,37 @@ def call(sim, name):
         return ("assert", None)
 
 
+def claim_all(e, label, acc):
+    """one VC for the conjunction; the individual claims are only tried when it fails"""
+    from symx.compare import sym_eq, _and
+
+    if e.mode != "sym":
+        ok = True
+        for n_, a, b in acc:
+            ok = e.claim_eq(n_, a, b) and ok
+        return ok
+    conds = [(n_, sym_eq(a, b)) for n_, a, b in acc]
+    if e.claim(label, _and([c for _, c in conds])):
+        return True
+    for n_, c in conds:
+        e.claim(n_, c)
+    return False
+
+
 def inspect_all(e, c, q, qa, items, names, tag, symbolic_memory=True):
     sim = c.sim
     S0 = riscv_snapshot(c, q, qa, items)
+    acc = []
     for name in names:
         if symbolic_memory and name in SKIP_WITH_SYMBOLIC_MEMORY:
             continue
         r1 = call(sim, name)
         r2 = call(sim, name)
-        e.claim_eq("%s:repeatable:%s" % (tag, name), r2, r1)
+        acc.append(("%s:repeatable:%s" % (tag, name), r2, r1))
     S1 = riscv_snapshot(c, q, qa, items)
     for k in S0:
-        e.claim_eq("%s:state-unchanged:%s" % (tag, k), S1[k], S0[k])
+        acc.append(("%s:state-unchanged:%s" % (tag, k), S1[k], S0[k]))
+    claim_all(e, "%s:pure" % tag, acc)
     return S1
 
 
@@ -95,7 +114,7 @@ def mk_caches(cfg):
     return cache_options(True, ib, bb, ways, kind, repl, 3), cache_options(True, 1, 0, 2, "wb", repl, 2)
 
 
-def h_inspect(e, mnems, mode, cfg=None, stride=1):
+def h_inspect(e, mnems, mode, cfg=None, stride=3):
     from symx.state import mk_riscv, place_instructions
     from symx.core import PathCut
     from architecture_simulator.simulation.runtime_errors import InstructionExecutionException
@@ -126,8 +145,9 @@ def h_inspect(e, mnems, mode, cfg=None, stride=1):
         except InstructionExecutionException:
             break
         n += 1
-        if n % stride == 0:
+        if n == 1 or n % stride == 0:
             inspect_all(e, c, q, qa, items, names, "s%d" % n)
+    inspect_all(e, c, q, qa, items, names, "final")
     e.observe("steps", n)
     e.observe("pc", c.sim.state.program_counter)
     e.claim("canary:pure", c.sim.state.performance_metrics.cycles == -1)
@@ -241,21 +261,23 @@ def jobs(tier, seed):
 
     out = []
     common = {"timeout_ms": 10000, "cut_on_undecided": True}
+    quick = tier == "quick"
     for mode in MODES:
         ms = "1" if mode.startswith("single") else "5"
         for m in MNEMONICS:
-            out.append(dict(common, label="insp%s:%s" % (ms, m), harness="inspect", args={"mnems": [m], "mode": mode}, cost=5, validate_every=2))
+            out.append(dict(common, label="insp%s:%s" % (ms, m), harness="inspect", args={"mnems": [m], "mode": mode, "stride": 3 if quick else 1}, cost=5 + 20 * (m == "ecall"), validate_every=2))
         for sk in skeletons(ALPHABET, 2):
-            if c02.heavy(sk, strict=True) and tier == "quick":
+            if c02.heavy(sk, strict=True):
+                if quick:
+                    continue
+            if quick and (hash_(sk) + seed) % 8 != 0:
                 continue
-            if tier == "quick" and (hash_(sk) + seed) % 3 != 0:
-                continue
-            out.append(dict(common, label="insp%s:%s" % (ms, ",".join(sk)), harness="inspect", args={"mnems": sk, "mode": mode}, cost=15, validate_every=4))
+            out.append(dict(common, label="insp%s:%s" % (ms, ",".join(sk)), harness="inspect", args={"mnems": sk, "mode": mode, "stride": 3 if quick else 2}, cost=15, validate_every=4, optional=not quick))
         for ci, cfg in enumerate(CFGS[1:], 1):
-            for sk in (["lw"], ["sw"], ["sb", "lw"], ["lw", "sw"], ["sw", "lb"], ["add", "lw"], ["sh", "lhu"]):
-                out.append(dict(common, label="insp%s-c%d:%s" % (ms, ci, ",".join(sk)), harness="inspect", args={"mnems": sk, "mode": mode, "cfg": cfg}, cost=25, validate_every=4))
-        for ci, cfg in enumerate(CFGS):
-            for sk in (["sw"], ["sb", "sw"], ["sw", "lw"], ["sh", "sb", "lbu"]):
+            for sk in ((["lw"], ["sw"], ["sb"], ["lhu"]) if quick else (["lw"], ["sw"], ["sb"], ["lhu"], ["sb", "lw"], ["lw", "sw"], ["add", "lw"])):
+                out.append(dict(common, label="insp%s-c%d:%s" % (ms, ci, ",".join(sk)), harness="inspect", args={"mnems": sk, "mode": mode, "cfg": cfg, "stride": 3}, cost=25, validate_every=4))
+        for ci, cfg in enumerate(CFGS[:2] if quick else CFGS):
+            for sk in ((["sw"], ["sb", "lw"]) if quick else (["sw"], ["sb", "sw"], ["sw", "lw"], ["sh", "sb", "lbu"])):
                 out.append(dict(common, label="small%s-c%d:%s" % (ms, ci, ",".join(sk)), harness="small", args={"mnems": sk, "mode": mode, "cfg": cfg}, cost=20, validate_every=2))
     out.append(dict(common, label="toy", harness="toy", args={"steps": 2}, cost=100, validate_every=10))
     for k in range(13):
